@@ -98,6 +98,8 @@ class View:
         shape = q.shape()
         b = q.block
         key = (b.id, shape)
+        if isinstance(t, TPtr) and not isinstance(t.to, TFunc):
+            return self.state.pmem.get(key)          # Ptr or None (unknown)
         lin = self.lin(q)
         if key not in self.state.mem and b.init is not None and shape in b.init:
             tab = b.init[shape]
@@ -232,13 +234,16 @@ class Ctx:
         self._bind(val)
         return val.z()
 
-    def ptr(self, name, count=1, nullable=False, single=None):
-        """pointer parameter valid for `count` objects of its pointee type (or NULL if nullable)"""
+    def ptr(self, name, count=1, nullable=False, single=None, target=None):
+        """pointer parameter valid for `count` objects of its pointee type (or NULL if nullable);
+        target (verify mode): an object created with c.obj() that the parameter points to"""
         d, t, val = self._next(name)
         if not isinstance(t, TPtr):
             raise Unsupported("parameter %s of %s is not a pointer" % (name, self.contract.name))
         cnt = count if isinstance(count, V) else (V(count) if isinstance(count, int) else V(count, 0, None))
-        if self.mode == "verify":
+        if self.mode == "verify" and target is not None:
+            val = target
+        elif self.mode == "verify":
             blk = self.E.new_block(name, t.to, cnt, "param", single=(cnt.concrete and cnt.t == 1) if single is None else single)
             null = False
             if nullable:
@@ -288,6 +293,27 @@ class Ctx:
         self._bind(val)
         return val.code.z()
 
+    def obj(self, name, ctype, count=1, single=None, kind="param"):
+        """an additional object of the pre-state (reached through pointer members): ctype = C type spelling"""
+        t = self.tu.tt.parse(ctype) if isinstance(ctype, str) else ctype
+        cnt = count if isinstance(count, V) else (V(count) if isinstance(count, int) else V(count, 0, None))
+        blk = self.E.new_block(name, t, cnt, kind, single=(cnt.concrete and cnt.t == 1) if single is None else single)
+        return Ptr(blk, (("i", V(0)),), t)
+
+    def set_ptr(self, ptr, path, target):
+        """pre-state: the pointer member ptr.path points to `target` (a Ptr)"""
+        q = View(self.E, self.E.state)._resolve(ptr, path, [])
+        if not self.E.is_scalar_cell(q.block, q.shape()):
+            raise Unsupported("set_ptr on an array cell")
+        self.E.state.pmem[(q.block.id, q.shape())] = target
+
+    def set(self, ptr, path, term):
+        """pre-state: the scalar member ptr.path holds `term`"""
+        q = View(self.E, self.E.state)._resolve(ptr, path, [])
+        if not self.E.is_scalar_cell(q.block, q.shape()):
+            raise Unsupported("set on an array cell")
+        self.E.state.mem[(q.block.id, q.shape())] = zt(term)
+
     def glob(self, name):
         b = self.E.global_block(name)
         return Ptr(b, (("i", V(0)),), b.elem) if b.single else Ptr(b, (("i", V(0)),), b.elem)
@@ -330,15 +356,8 @@ class Ctx:
         return z3.BoolVal(True)
 
     def instantiate(self, *terms, sort=None):
-        E = self.E
         for t in terms:
-            t = z3.IntVal(t) if isinstance(t, int) else t
-            if any(t.eq(x) and xs == sort for xs, x in E.inst_terms):
-                continue
-            E.inst_terms.append((sort, t))
-            for (us, u) in list(E.universals):
-                if sort is None or us is None or us == sort:
-                    E.assume(u(t))
+            self.E.instantiate(t, sort)
 
     def lemma(self, fact):
         """instance of a lemma that is proved separately (the property part emits its base/step obligations)"""
@@ -388,6 +407,7 @@ class Contract:
     uses = ()              # contracts (classes) of callees
     trusted_init = ()      # globals whose initialiser is taken as content (justified by never_written check)
     merge_ifs = False      # True: `if` statements with assignment-only branches are merged (ite) instead of forking
+    frame = True           # False: no frame obligations (contracts that state memory safety only)
     cases = (None,)
     loops = None           # {ordinal: LoopSpec}
 
@@ -467,7 +487,7 @@ def as_callee(contract_cls, tu):
         exact = contract.returns(c, old)
         for r in contract.assigns(c):
             for (blk, shape, lin, cnt, lt) in region_cells(E, r):
-                E.havoc_cell(blk, shape, lin, cnt)
+                E.havoc_cell(blk, shape, lin, cnt, ltype=lt)
         contract.ghost_effect(c, old)
         fnode = tu.protos[contract.name]
         ft = tu.tt.parse(fnode["type"]["qualType"])
@@ -562,7 +582,7 @@ class LoopSpec:
         for (blk, shape, lin, cnt, lt) in cells:
             allowed.add((blk.id, shape))
         for (blk, shape, lin, cnt, lt) in cells:
-            E.havoc_cell(blk, shape, lin, cnt)
+            E.havoc_cell(blk, shape, lin, cnt, ltype=lt)
         for label, g in self._inv(E, fr, entry, "assume"):
             E.assume(g)
         for did, (name, p) in self._ptr_defs(E, fr).items():
@@ -631,6 +651,9 @@ def make_engine(tu, contract, registry):
         E.contracts[cc.name] = as_callee(cc, tu)
     E.inline |= set(contract.inline)
     E.trusted_init |= set(contract.trusted_init)
+    for nm, fn in (getattr(contract, "externals", None) or {}).items():
+        E.externals[nm] = fn
+    E.external_notes = dict(getattr(contract, "external_notes", None) or {})
     if hasattr(contract, "callback"):
         E.contracts["(*)"] = lambda E_, args, node: contract.callback(E_, args[0], args[1:], node)
     if contract.merge_ifs:
@@ -673,6 +696,7 @@ def verify(run, prop, tu, contract_cls, case_filter=None, tag_extra=None):
             holder["inputs"] = c.inputs
             holder["ctx"] = c
             E.state.written = set()
+            nblocks0 = E.nblocks
             old_state = E.state.snapshot()
             old = View(E, old_state)
             chk = z3.Solver()
@@ -700,11 +724,15 @@ def verify(run, prop, tu, contract_cls, case_filter=None, tag_extra=None):
             for r in contract.assigns(c):
                 cells.extend(region_cells(E, r))
             frames = []
-            for key in sorted(E.state.written, key=str):
+            for key in (sorted(E.state.written, key=str) if contract.frame else ()):
                 blk = E.state.blocks[key[0]]
-                if blk.kind in ("local", "vla", "string"):
-                    continue
+                if blk.kind in ("local", "vla", "string") or blk.id > nblocks0:
+                    continue            # locals, and objects created (allocated) during the call
                 cov = [x for x in cells if x[0].id == key[0] and x[1] == key[1]]
+                if key in E.state.pmem or key in old_state.pmem:
+                    if not cov and E.state.pmem.get(key) is not old_state.pmem.get(key):
+                        frames.append(("unchanged(%s%s)" % (blk.name, "".join("." + s_ for s_ in key[1][1:])), z3.BoolVal(False)))
+                    continue
                 newc = E.get_cell(E.state, blk, key[1])
                 oldc = E.get_cell(old_state, blk, key[1])
                 nm = "%s%s" % (blk.name, "".join("." + s if s != "[]" else "[]" for s in key[1][1:]))
@@ -809,6 +837,10 @@ def note_engine(run, E, tu):
     for n in sorted(E.used_inline):
         run.inlined.add("%s:%s" % (tu.relfile, n))
     for n in sorted(E.used_externals):
+        txt = getattr(E, "external_notes", {}).get(n)
+        if txt:
+            run.assume("assumed contract of %s" % txt)
+            continue
         if n == "memcpy":
             continue            # modelled (member-wise struct copy), see the CVC note above
         run.assume("external %s(): assumed to have no effect on program memory (arguments are still evaluated)" % n)
